@@ -127,12 +127,13 @@ func (k Keeper) UpdatePriceList(ctx sdk.Context, id, scriptID, rate, twaBatch ui
 }
 
 func (k Keeper) CalculateTwa(ctx sdk.Context, twa types.TimeWeightedAverage, twaBatch uint64) uint64 {
-	var sum uint64
+	// accumulate in a 256-bit unsigned integer: a window of large uint64 samples must not wrap
+	sum := sdk.NewUint(0)
 	oldTwa := twa.Twa
 	for i := 0; i < int(twaBatch); i++ {
-		sum = sum + twa.PriceValue[i]
+		sum = sum.Add(sdk.NewUint(twa.PriceValue[i]))
 	}
-	twa.Twa = sum / twaBatch
+	twa.Twa = sum.QuoUint64(twaBatch).Uint64()
 
 	if oldTwa != twa.Twa {
 		ctx.EventManager().EmitEvents(sdk.Events{
